@@ -103,7 +103,7 @@ Proof. vm_compute. repeat split; try reflexivity. discriminate. Qed.
 
 (* without one ("in x;") the decidable instance check passes and the parses coincide *)
 Lemma in_unglued_same :
-  kw_tables_ok ascii_word ascii_digit ascii_lower in_in1 tbl_in1_plain tbl_in1_kw g_in_plain g_in_kw = true /\
+  kw_case_ok ascii_word ascii_digit ascii_lower in_in1 tbl_in1_plain tbl_in1_kw g_in_plain g_in_kw = true /\
   no_glue_ok ascii_word ascii_digit ascii_lower in_in1 g_in_plain = true /\
   accepted (run g_in_plain cfg_default (orc_of tbl_in1_plain) false 50 in_in1) = true /\
   run g_in_kw cfg_default (orc_of tbl_in1_kw) false 50 in_in1
